@@ -77,15 +77,29 @@ func Run(p *Plan, ch simsync.Chooser) *Outcome {
 		unordered bool
 	}
 	refs := make([][]refT, len(p.Clients))
+	registers := false
+	for c := range p.Clients {
+		for _, cl := range p.Clients[c] {
+			registers = registers || cl.Entry == ERegister
+		}
+	}
 	for c := range p.Clients {
 		refs[c] = make([]refT, len(p.Clients[c]))
+		if registers {
+			// one brand-new reference process per registration epoch (see Oracle.Epochs)
+			for i, r := range orc.Epochs(p.Clients[c]) {
+				refs[c][i] = refT{r.Canon, r.Unordered}
+			}
+			out.Counters.Add("histories_with_global_registrations", 1)
+			continue
+		}
 		for i, cl := range p.Clients[c] {
 			canon, un := orc.Ref(cl)
 			refs[c][i] = refT{canon, un}
 		}
 	}
 	var freshV *detsim.Violation
-	if p.Young {
+	if p.Young && !registers {
 		var all []Call
 		var want []refT
 		seen := map[string]bool{}
@@ -109,7 +123,7 @@ func Run(p *Plan, ch simsync.Chooser) *Outcome {
 			}
 		}
 	}
-	if freshV == nil && p.FreshAt > 0 && p.FreshAt <= len(p.Clients[0]) {
+	if freshV == nil && !registers && p.FreshAt > 0 && p.FreshAt <= len(p.Clients[0]) {
 		cl := p.Clients[0][p.FreshAt-1]
 		want := refs[0][p.FreshAt-1]
 		got := orc.Fresh(cl)
@@ -211,7 +225,7 @@ func Run(p *Plan, ch simsync.Chooser) *Outcome {
 				calls := p.Clients[c]
 				for k := 0; k < p.Churn && len(calls) > 0; k++ {
 					cl := calls[(k*7+3)%len(calls)]
-					if cl.Entry == EDump {
+					if cl.Entry == EDump || cl.Entry == ERegister {
 						continue
 					}
 					if strings.HasPrefix(refs[c][(k*7+3)%len(calls)].canon, "panic:") {
@@ -351,7 +365,7 @@ func Run(p *Plan, ch simsync.Chooser) *Outcome {
 	if out.V == nil && freshV != nil {
 		out.V = freshV
 	}
-	if out.V == nil && nrec > 0 {
+	if out.V == nil && nrec > 0 && !registers {
 		// the reference must not have hidden state either: ask once more for a sample
 		last := cs[0].recs
 		if len(last) > 0 {
